@@ -12,7 +12,8 @@ CHECK = {
              "equal within a stage and across stages. distinct_nontrivial = distinct shim schedule decision traces + distinct "
              "(profile, case, arena size) executions."),
     "min_nontrivial": {"quick": 100, "thorough": 1000},
-    "cross_stage_equal": [["ser", "shim", "tbb", "serhuge", "shimhuge", "tbbhuge"]],
+    # two seed groups (different programs and sizes): compare only within a group
+    "cross_stage_equal": [["ser", "shim", "tbb"], ["serhuge", "shimhuge", "tbbhuge"]],
     "stages": [
         {"name": "ser", "variant": "ser", "harness": "c04_determinism.cpp",
          "cases": {"quick": 26, "thorough": 78}, "params": _p(scale=1, schedules=1), "case_timeout": 900},
